@@ -304,6 +304,7 @@ func TestC07(t *testing.T) {
 	r := newRun(t, "C07", "fault_enumeration")
 	defer r.Finish()
 	r.Rule = "(i) crash-point enumeration over both maker roles × both chains with an honest peer (victim killed at every boundary crossing before/after the effect, restarted, drained past the CSV); (ii) scripted takers: silence, cancel, invalid message, coop_close with wrong / malformed / short / zero / third-party keys, cancel then coop_close, coop_close after CSV, each × injected faults (height lookup or wallet labelling call failing right after the wallet broadcast, refund broadcast failing 5×, announcement send failing) × wallet output orderings (swap output at index 0-2), followed by CSV maturity, restarts and timers. Oracle: committed record names the broadcast tx and the index of its swap output; terminal only if paid or own spend accepted by the chain; refund on chain after the drain. distinct = (chain, role, adversity, final state, paid, own spend)"
+	r.Rule += " (iv) scripted takers that answer the announcement once (cancel, coop_close with a wrong or malformed key, nothing) and go silent, with the maker restarted while it waits for the CSV; oracle: the announced output is spent by a transaction of the node."
 	r.Assumptions = []string{"reference watcher (W-det) watches the announced (txid, vout) like the real RPC watcher, so a wrong index shows as a refund that never matures", "bounded restatement of 'whenever the CSV matures ... the node broadcasts the refund': after 4 rounds of blocks, restarts and timers"}
 	// (i)
 	pts := 0
